@@ -3,9 +3,8 @@
 
   Model: `PBar` (both progress-bar classes), `finishSearch`. For every backend, objective and space:
   after a call `best_score` is the maximum of the call's non-nan scores and `best_para` decodes the position of the
-  FIRST step attaining it; nan is never the best; the result does not depend on the verbosity.
-  Partial: when every score of the call is `-inf` or nan the pair stays `(-inf, None)` (`allNegInf_bestPara_none`):
-  `best_para` is `None` although rows exist - recorded as a finding in DESIGN.md / known_findings.json.
+  FIRST step attaining it (also when that maximum is -inf: fix 733723c); nan is never the best and `best_para` is None
+  only when every score of the call was nan; the result does not depend on the verbosity.
 -/
 import GFO.Proofs.Verbosity
 namespace GFO.C05
@@ -23,8 +22,8 @@ theorem best_is_first_max {b : Backend σ} {sp : Space} {obj : Obj} {c : Call} {
     -- it dominates every non-nan score of the call
     (∀ ps ∈ callSteps d d', ps.2.isNan = false → F.le ps.2 r.bestScore = true) ∧
     -- it is attained, and best_pos is the position of the first step attaining it ...
-    ((r.bestScore = .ninf ∧ r.bestPos = none ∧ ∀ ps ∈ callSteps d d', F.lt .ninf ps.2 = false) ∨
-     (∃ l1 t l2, callSteps d d' = l1 ++ t :: l2 ∧ r.bestScore = t.2 ∧ r.bestPos = some t.1 ∧ F.lt .ninf t.2 = true ∧
+    ((r.bestScore = .ninf ∧ r.bestPos = none ∧ ∀ ps ∈ callSteps d d', ps.2.isNan = true) ∨
+     (∃ l1 t l2, callSteps d d' = l1 ++ t :: l2 ∧ r.bestScore = t.2 ∧ r.bestPos = some t.1 ∧
         ∀ u ∈ l1, F.lt u.2 t.2 = true ∨ u.2.isNan = true)) := by
   obtain ⟨cs, d1, cs1, tr, S⟩ := searchCall_shape h hn
   obtain ⟨_, _, _, _, _, _, _, hpb, _⟩ := initSearch_ok S.init
@@ -45,24 +44,16 @@ theorem best_is_first_max {b : Backend σ} {sp : Space} {obj : Obj} {c : Call} {
     obtain ⟨t, ht, hts⟩ := List.mem_map.mp hps
     subst hts
     rw [hbs]; exact bestOf_ge_mem _ _ rfl t ht hnn
-  · rcases bestOf_first (F.ninf, none) rfl tr with hsame | ⟨l1, t, l2, hl, hb, hlt, hall⟩
+  · rcases bestOf_first (F.ninf, none) rfl tr with hsame | ⟨l1, t, l2, hl, hb, _, hall⟩
     · left
       refine ⟨by rw [hbs, hsame], by rw [hbp, hsame], ?_⟩
       intro ps hps
       rw [hsteps] at hps
       obtain ⟨t, ht, hts⟩ := List.mem_map.mp hps
       subst hts
-      -- nothing exceeds -inf, otherwise the best would have moved
-      apply Classical.byContradiction
-      intro hne
-      have hgt : F.lt F.ninf t.score = true := by simpa using hne
-      have hnn : t.score.isNan = false := F.not_nan_of_lt_right hgt
-      have := bestOf_ge_mem (F.ninf, none) tr rfl t ht hnn
-      rw [hsame] at this
-      have := F.lt_of_lt_of_le hgt this
-      simp [F.lt] at this
+      exact bestOf_initial_iff_all_nan tr hsame t ht
     · right
-      refine ⟨l1.map (fun t => (t.pos, t.score)), (t.pos, t.score), l2.map (fun t => (t.pos, t.score)), ?_, ?_, ?_, hlt, ?_⟩
+      refine ⟨l1.map (fun t => (t.pos, t.score)), (t.pos, t.score), l2.map (fun t => (t.pos, t.score)), ?_, ?_, ?_, ?_⟩
       · rw [hsteps, hl]; simp
       · rw [hbs, hb]
       · rw [hbp, hb]
@@ -126,16 +117,10 @@ theorem verbosity_irrelevant (b : Backend σ) (sp : Space) (obj : Obj) (c : Call
       simp only [CallResult.core] at hr ⊢
       exact hr.symm
 
-/-- when every score of a call is -inf (or nan) the reported pair stays `(-inf, None)`: `best_para` is None although
-    rows exist (the strict `>` never fires against the initial `-inf`) -/
-theorem allNegInf_bestPara_none (tr : List StepRec) (h : ∀ t ∈ tr, F.lt .ninf t.score = false) :
-    bestOf (F.ninf, none) tr = (F.ninf, none) := by
-  induction tr with
-  | nil => rfl
-  | cons t rest ih =>
-    simp only [bestOf]
-    have : F.gt t.score F.ninf = false := h t (by simp)
-    rw [this]
-    exact ih (fun u hu => h u (by simp [hu]))
+/-- the pinned-commit form (strict `>` only) left `best_para = None` for an all `-inf` call; the current one reports
+    the first such row -/
+theorem allNegInf_witness :
+    (({} : PBar).new2bestLegacy .ninf [3]).posBest = none ∧ (({} : PBar).new2best .ninf [3]).posBest = some [3] ∧
+    (({} : PBar).new2best .nan [3]).posBest = none := by decide +kernel
 
 end GFO.C05
